@@ -361,6 +361,10 @@ func (w *w4) envOp(op simrt.Op) {
 		}
 	case "delete-topic":
 		name := fmt.Sprintf("n%d", op.A%4)
+		if op.B == 1 {
+			// one of the topics the proxy has known (and cached the id of) since it started
+			name = w.topics[int(op.A)%len(w.topics)]
+		}
 		if err := w.inner.DeleteTopic(context.Background(), name); err == nil {
 			w.snapshot()
 			w.sim.Probe("w4.topic-deleted")
